@@ -50,6 +50,9 @@ PLANS["C02"] = {
         "thorough": dict(MaxRows=4, MaxCells=2, MaxLate=2, MaxDetached=2, MaxHdr=2, MaxHist=8, ItemMode="plain"),
         "properties": ["RowsAppendOnly"],
     }],
+    "simulate": [{"module": "MCGrid",
+                  "quick": dict(MaxRows=40, MaxCells=3, MaxLate=3, MaxDetached=3, MaxHdr=3, ItemMode="plain", _num=100, _depth=30),
+                  "thorough": dict(MaxRows=60, MaxCells=4, MaxLate=4, MaxDetached=4, MaxHdr=4, ItemMode="plain", _num=3000, _depth=40)}],
     "random": [{"gen": gens.gen_grid}],
     "min_scenarios": {"quick": 1000, "thorough": 10000},
     "assumptions": [
@@ -78,6 +81,7 @@ PLANS["C18"] = {
 
 PLANS["C01"] = {
     "facets": "text",
+    "own": ["text", "out.csv", "out.html", "out.errtext"],
     "mc": [{
         "module": "MCItems",
         "quick": dict(MaxHist=6),
